@@ -5,6 +5,8 @@
 (* largest gas limit that pays for k calls and no more.                              *)
 (*  quick:    every sequence of <= 3 calls + a seeded sample of sequences of 5;      *)
 (*  thorough: every sequence of <= 4 calls + a seeded sample of sequences of 5.      *)
+(*  both:     every sequence of <= 3 calls over Extra (upgrade, solicit, checkpoint, *)
+(*            write, yield): calls whose effects lie outside the abstract context.   *)
 EXTENDS AccumulateInv, Json, SequencesExt
 CONSTANTS OutFile, Tier, Seed
 VARIABLE x
@@ -16,8 +18,10 @@ Ends(n) == <<[kind |-> "halt0"], [kind |-> "halt32"], [kind |-> "halt5"], [kind 
            \o [i \in 1..(2 * (n + 1)) |-> [kind |-> "oog", k |-> (i - 1) \div 2, d |-> IF i % 2 = 1 THEN "min" ELSE "max"]]
 Short == UNION {Seqs(n) : n \in 0..(IF Tier = "quick" THEN 3 ELSE 4)}
 Long == IF Tier = "quick" THEN {s \o t : s \in Pick(Seqs(3), 41), t \in Pick(Seqs(2), 5)}
-        ELSE {s \o t : s \in Pick(Seqs(4), 13), t \in Seqs(1)}
+        ELSE {s \o t : s \in Pick(Seqs(4), 29), t \in Seqs(1)}
+Ext == UNION {[1..n -> Extra] : n \in 1..3}
 Cases == {[tag |-> "short", calls |-> s, ends |-> Ends(Len(s))] : s \in Short}
+         \cup {[tag |-> "ext", calls |-> s, ends |-> Ends(Len(s))] : s \in Ext}
          \cup {[tag |-> "long", calls |-> s, ends |-> Ends(Len(s))] : s \in Long}
 ASSUME ndJsonSerialize(OutFile, SetToSeq(Cases))
 ASSUME PrintT(<<"GEN", Cardinality(Short), Cardinality(Long)>>)
